@@ -64,6 +64,7 @@ theorem execUtil_set (s : State) (u : Util) (name : String)
   | unalias => exact execUnalias_set _ _ _
   | set => exact execSet_set _ _ _
   | cat => exact absurd rfl h2
+  | echo => rfl
   | unknown => rfl
 
 theorem step_set (k : List K) (s : State) (x : List Byte)
@@ -143,6 +144,7 @@ theorem execSimpleC_flat (c : CState) (fields : List String)
     | unalias => exact (execUtil_set c.st .unalias name args here _ (by simp) (by simp)).symm
     | set => exact (execUtil_set c.st .set name args here _ (by simp) (by simp)).symm
     | unknown => exact (execUtil_set c.st .unknown name args here _ (by simp) (by simp)).symm
+    | echo => exact (execUtil_set c.st .echo name args here _ (by simp) (by simp)).symm
 
 theorem stepC_flat (k : List K) (c : CState) :
     (stepC k c).map (fun r => (r.1, r.2.flat)) = step k c.flat := by
